@@ -16,6 +16,12 @@ TYPE_NAMES = ["t", "u", "node"]
 PROC_NAMES = ["helper", "init", "work"]
 ABS_NAMES = ["cb", "op"]
 UNDECLARED = {"type": ["nosuch_t", "ghost"], "proc": ["nosuch_p", "phantom"]}
+# Names under which FORD always has a link object (ford.settings.INTRINSIC_MODS) and the `extra_mods`
+# option every run of this property sets: a USE statement must still bind to the project's module
+INTRINSIC_NAMES = ["iso_fortran_env", "iso_c_binding", "ieee_arithmetic", "ieee_exceptions", "ieee_features",
+                   "openacc", "omp_lib", "mpi", "mpi_f08"]
+EXTRA_MODS = {"extlib": "https://example.org/extlib", "netcdf": "https://example.org/netcdf.html"}
+SPECIAL_NAMES = INTRINSIC_NAMES + sorted(EXTRA_MODS)
 
 
 def spell(rng, n, p=0.15):
@@ -56,13 +62,13 @@ def imports_of(units, s, memo=None):
         ex = exports(units, us["target"], memo)
         for c in res:
             if us["only"] is None:
-                res[c] += [(n, p) for n, p in ex[c].items()]
+                # everything but the renamed names, then the renames (get_used_entities)
+                ren = {r.lower(): l.lower() for l, r in us.get("renames", [])}
+                res[c] += [(n, p) for n, p in ex[c].items() if n not in ren]
+                res[c] += [(l.lower(), ex[c][r.lower()]) for l, r in us.get("renames", []) if r.lower() in ex[c]]
             else:
                 # get_used_entities: iterate the module's table, keep the names of the only-list
-                want = {}
-                for l, r in us["only"]:
-                    want[r.lower()] = l.lower()
-                res[c] += [(want[n], p) for n, p in ex[c].items() if n in want]
+                res[c] += [(l.lower(), ex[c][r.lower()]) for l, r in us["only"] if r.lower() in ex[c]]
     return res
 
 
@@ -240,10 +246,26 @@ class Gen:
             m = rng.choice(mods)
             ex = exports(units, m["name"])
             names = sorted({n for c in ex.values() for n in c})
-            only = None
-            if names and rng.random() < 0.4:
+            only, renames = None, []
+            r = rng.random()
+            generic_names = {g["name"].lower() for x in units + [root] for sc_ in all_scopes(x) for g in sc_["generics"]}
+            # (procedure pointers of modules keep their v<k> names and generics theirs: the generator
+            # tells them from procedures by the name)
+            plain = [n for n in names if not VARNAME.match(n) and n not in generic_names]
+            if names and r < 0.4:
                 only = [[n, n] for n in rng.sample(names, min(len(names), rng.randint(1, 2)))]
-            s["uses"].append({"target": spell(rng, m["name"]), "only": only})
+                if rng.random() < 0.3 and only[0][1] in plain:
+                    only[0][0] = self.fresh("rn")          # only: local => remote
+            elif r < 0.5 and plain:
+                renames = [[self.fresh("rn"), rng.choice(plain)]]   # use m, local => remote
+            s["uses"].append({"target": spell(rng, m["name"]), "only": only, "renames": renames,
+                              "prefix": rng.choice(["", "", "::", "non_intrinsic"])})
+        if s["kind"] != "absbody" and rng.random() < 0.12:
+            # an intrinsic module (no project module bears that name: see program())
+            n = rng.choice(["iso_fortran_env", "iso_c_binding"])
+            if not any(u["name"].lower() == n for u in units + [root]):
+                s["uses"].append({"target": n, "only": None, "renames": [],
+                                  "prefix": rng.choice(["intrinsic", "intrinsic", ""])})
         body = s["kind"] in ("ifbody", "absbody")
         # declarations first (so that references can pick them), then references
         if not body:
@@ -290,7 +312,15 @@ class Gen:
         units = []
         nmod = rng.choice([1, 2, 2, 3])
         for i in range(nmod):
-            u = new_scope(spell(rng, "m" + "abc"[i], 0.3), "module")
+            name = "m" + "abc"[i]
+            if rng.random() < self.knobs.get("p_special", 0.3):
+                # a project module named like an intrinsic module or like an extra_mods entry;
+                # iso_fortran_env / iso_c_binding only for the last module, which nothing later
+                # designates with `use, intrinsic ::`
+                pool = [n for n in SPECIAL_NAMES if n not in [x["name"].lower() for x in units]
+                        and n not in ("iso_fortran_env", "iso_c_binding")]
+                name = rng.choice(pool)
+            u = new_scope(spell(rng, name, 0.3), "module")
             units.append(u)
             self.gen_scope(units, u, [u], 0)
             if rng.random() < 0.3:
@@ -311,7 +341,12 @@ class Gen:
             units.append(u)
             mods = [x for x in units if x["kind"] == "module"]
             if mods and rng.random() < 0.7:
-                u["uses"].append({"target": spell(rng, rng.choice(mods)["name"]), "only": None})
+                u["uses"].append({"target": spell(rng, rng.choice(mods)["name"]), "only": None, "renames": [],
+                                  "prefix": rng.choice(["", "::", "non_intrinsic"])})
+            if rng.random() < 0.5 and not any(x["name"].lower() in ("iso_fortran_env", "iso_c_binding") for x in units):
+                # (FortranBlockData needs its own intrinsic_uses for this statement)
+                u["uses"].insert(0, {"target": rng.choice(["iso_fortran_env", "iso_c_binding"]), "only": None,
+                                     "renames": [], "prefix": rng.choice(["intrinsic", "intrinsic", ""])})
             for _ in range(rng.randint(0, 2)):
                 n = self.pick(TYPE_NAMES, self.p_reuse)
                 if n.lower() not in own_names(u)["CType"]:
@@ -391,7 +426,11 @@ def render_scope(s, ind=""):
         head += "(" + ", ".join(a["name"] for a in s["args"]) + ")"
     L = [head]
     for us in s["uses"]:
-        line = f"{ind}  use {us['target']}"
+        pre = {"": "use ", "::": "use :: ", "non_intrinsic": "use, non_intrinsic :: ",
+               "intrinsic": "use, intrinsic :: "}[us.get("prefix", "")]
+        line = f"{ind}  {pre}{us['target']}"
+        if us.get("renames"):
+            line += ", " + ", ".join(f"{l} => {r}" for l, r in us["renames"])
         if us["only"] is not None:
             line += ", only: " + ", ".join(l if l == r else f"{l} => {r}" for l, r in us["only"])
         L.append(line)
